@@ -11,9 +11,10 @@ BROADCAST = "255.255.255.255"
 class UdpWorld:
     """Hosts answer the well-known probe (verified independently) arriving on their own port."""
 
-    def __init__(self, net, hosts: list) -> None:
+    def __init__(self, net, hosts: list, routes: dict = None) -> None:
         self.net = net
         self.hosts = hosts              # dicts: ip, listen_port, replies [(delay, src_port, bytes)]
+        self.routes = routes or {}      # other targets that reach hosts: host name or directed broadcast -> [ips]
         self.probes_seen: list = []
         self.bad_probes = 0
         net.udp_handler = self.on_datagram
@@ -26,7 +27,7 @@ class UdpWorld:
             self.bad_probes += 1
             return
         for h in self.hosts:
-            if target not in (BROADCAST, h["ip"]):
+            if target not in (BROADCAST, h["ip"]) and h["ip"] not in self.routes.get(target, ()):
                 continue
             if port != h.get("listen_port", 6445):
                 continue
